@@ -64,7 +64,7 @@ var c15Sanctioned = map[string][]string{
 	},
 	"extractor/filesystem/sbom/cdx.enumerateComponents": {
 		"builtin.len(param0) <= (φ:int+1:int)",
-		"extractor/filesystem/sbom/cdx.convertComponentToInventory(local:*cyclonedx.Component) == nil:*github.com/google/osv-scalibr/extractor.Package",
+		"extractor/filesystem/sbom/cdx.convertComponentToInventory(‹param0[(φ:int+1:int)]›) == nil:*github.com/google/osv-scalibr/extractor.Package",
 	},
 	"extractor/filesystem/sbom/cdx.convertComponentToInventory": {
 		"0:int == builtin.len(local:*extractor.Package.Metadata.(*cdx.Metadata).CPEs)",
@@ -793,7 +793,8 @@ func isAppendOf(elem string) func(ssa.Instruction) bool {
 }
 
 func c15Omissions(p *Prog, r *Report) {
-	defer func(d int) { renderDepth = d }(renderDepth)
+	defer func(d int, a bool) { renderDepth, renderAllocs = d, a }(renderDepth, renderAllocs)
+	renderAllocs = true
 	renderDepth = 10
 	learn := os.Getenv("SCALINT_LEARN") != ""
 	type site struct {
